@@ -764,11 +764,21 @@ pub fn gen_planner(rng: &mut Xo, kind: PlannerKind, ext: f64) -> PlannerSpec {
     let max_distance = match rng.below(60) {
         0 => 0.0,
         1 => 1e-20 * ext,
+        // "unlimited": the largest finite double (arithmetic on it overflows or underflows)
+        2 => f64::MAX,
         _ => max_distance,
     };
     // degenerate radii: exactly 0 (RRT* then has no neighbours, PRM no links)
-    let search_radius = if rng.chance(0.03) { 0.0 } else { search_radius };
-    let connection_radius = if rng.chance(0.02) { 0.0 } else { connection_radius };
+    let search_radius = match rng.below(100) {
+        0..=2 => 0.0,
+        3 => f64::MAX,
+        _ => search_radius,
+    };
+    let connection_radius = match rng.below(100) {
+        0 | 1 => 0.0,
+        2 => f64::MAX,
+        _ => connection_radius,
+    };
     PlannerSpec {
         kind,
         max_distance,
